@@ -877,7 +877,8 @@ def agg_field_origins(ctx, f, adt, var, field):
     for pt in f.points():
         if f.is_term(pt): continue
         n = f.node(pt)
-        if n.get("s") == "=" and n["rv"]["r"] == "agg" and n["rv"].get("ak") == "adt" and norm(n["rv"]["adt"]) == adt and n["rv"].get("var") == var:
+        if n.get("s") == "=" and n["rv"]["r"] == "agg" and n["rv"].get("ak") == "adt" and norm(n["rv"]["adt"]) == adt and \
+           (n["rv"].get("var") == var or (ctx.prog.adts.get(adt) or {}).get("kind") == "Struct"):     # a struct has one variant, whatever it is called
             names = n["rv"].get("fields") or []
             if field in names:
                 out.append((pt, simplify(trace_operand(f, n["rv"]["ops"][names.index(field)]))))
@@ -1080,6 +1081,27 @@ def _w_locks(o):
     o = _sv(o)
     return o[0] == "bin" and o[1] == "BitOr" and (_w_lock_bit(o[2]) or _w_lock_bit(o[3]))
 
+def packed_word_sites(f, pack_suffix="BlockPtr::pack"):
+    """[(point, pointer part, index part)]: every place in f where a packed word `block | index` is built - by BlockPtr::pack or written out"""
+    out = []
+    for pt in f.points():
+        n = f.node(pt)
+        if f.is_term(pt):
+            if n["t"] == "call" and (callee_name(n) or "").endswith(pack_suffix) and len(n["args"]) >= 2:
+                out.append((pt, simplify(trace_operand(f, n["args"][0])), simplify(trace_operand(f, n["args"][1]))))
+        elif n.get("s") == "=" and n["rv"]["r"] == "bin" and n["rv"]["op"] == "BitOr":
+            a, b = simplify(trace_operand(f, n["rv"]["a"])), simplify(trace_operand(f, n["rv"]["b"]))
+            if _w_lock_bit(a) or _w_lock_bit(b): continue
+            out.append((pt, a, b))
+    return out
+
+def is_packed_value(f, o, sites):
+    """o (an origin in f) is the result of one of the packed-word sites"""
+    o = _sv(o)
+    if o[0] == "call": return any(f.is_term(pt) and pt.bb == o[1] for pt, _, _ in sites)
+    if o[0] == "bin" and o[1] == "BitOr": return not (_w_lock_bit(o[2]) or _w_lock_bit(o[3]))
+    return False
+
 def mpsc_tail_protocol(ctx):
     MQ = "may_queue::mpsc"; fid = MQ + "::Queue::push"; TAIL = MQ + "::BlockPtr.0"
     cas = A("compare_exchange(_weak)?")
@@ -1095,18 +1117,19 @@ def mpsc_tail_protocol(ctx):
     is_id = lambda o: _w_unpack_field(o, 1, UNP, f)
     newv = simplify(trace_operand(f, f.node(cs[0])["args"][2]))
     alts = [simplify(a) for a in newv[2]] if newv[0] == "phi" else [newv]
-    shape = len(alts) == 2 and sum(1 for a in alts if _w_locks(a)) == 1 and sum(1 for a in alts if a[0] == "call" and (a[2] or "").endswith("BlockPtr::pack")) == 1
+    psites = packed_word_sites(f)
+    shape = len(alts) == 2 and sum(1 for a in alts if _w_locks(a)) == 1 and sum(1 for a in alts if not _w_locks(a) and is_packed_value(f, a, psites)) == 1
     ctx.ob("R-ENUM", fid, "mpsc/push/new-tail-is-pack-or-lock", shape, "the value push CASes into tail is either pack(block, id + 1) or the old tail with the transition-lock bit" if shape else
            "mpsc push CASes %s into tail (expected: pack(..) inside the block, tail | 1<<63 at the last slot)" % fmt_origin(newv)[:200], f.where(cs[0]))
     if not shape: return
     pre = an.reach(f, [Point(0, 0)], blocked=set(cs))
-    packs = [p0 for p0 in sorted(an.sites(f, Call(re.escape(MQ) + "::BlockPtr::pack", transitive=False), "must")) if p0 in pre]
+    pk = [(p0, a0, a1) for (p0, a0, a1) in psites if p0 in pre]
+    packs = [p0 for p0, _, _ in pk]
     okp = False
-    for p0 in packs:
-        a0, a1 = [simplify(trace_operand(f, x)) for x in f.node(p0)["args"][:2]]
-        b = _sv(a1)
-        okp = b[0] == "bin" and b[1].startswith("Add") and is_id(b[2]) and is_const(1)(simplify(b[3])) and (_w_unpack_field(a0, 0, UNP, f) or _w_unpack_field(_sv(a0)[1] if _sv(a0)[0] in ("ref", "deref") else a0, 0, UNP, f) or
-              UNP in fmt_origin(a0))
+    for p0, a0, a1 in pk:
+        for ptr, idx in ((a0, a1), (a1, a0)):
+            b = _sv(idx)
+            if b[0] == "bin" and b[1].startswith("Add") and is_id(b[2]) and is_const(1)(simplify(b[3])) and UNP in fmt_origin(ptr): okp = True
     ctx.ob("R-ENUM", fid, "mpsc/push/claim-advances-by-one", okp, "a producer's claim CASes tail to pack(block, id + 1): the next producer writes the next slot" if okp else
            "mpsc push does not CAS tail to pack(block, id + 1): two producers write the same slot (a message overwritten = lost) or a slot stays empty (the consumer waits on it forever)",
            f.where(packs[0]) if packs else f.where())
@@ -1605,3 +1628,366 @@ def mutex_cancel_arm_rules(ctx, rule="R-EXIT"):
     okl = bool(last) and len(bad) < len(last)
     ctx.ob(rule, ML, "mutex/enabled-cancel-stops-waiter", okl, "with the cancel enabled the cancel arm of Mutex::lock ends in the Cancel panic (the cancelled coroutine does not queue again)" if okl else
            "Mutex::lock's cancel arm can go back to waiting / return although the cancel is enabled: a cancelled coroutine is not stopped at this lock()", f.where(sorted(trg)[0]))
+
+
+# ------------------------------------------------------------------------------------------------
+# blocking.rs: the thread parker's token and the Blocker/SyncBlocker wiring (C02 and every primitive built on it)
+
+def thread_park_token_rules(ctx, rule="R-EXIT"):
+    TP = "may::sync::blocking::ThreadPark"
+    PT = TP + "::park_timeout"; UP = TP + "::unpark"
+    def tok(o):
+        o = simplify(o)
+        while o[0] in ("deref", "ref"): o = simplify(o[1])
+        return o[0] == "call" and (o[2] or "").endswith("Mutex::lock")
+    no_token = lambda a: cmp_matches(a, "Eq", tok, is_const(0))
+    has_token = lambda a: cmp_matches(a, "Ne", tok, is_const(0))
+    WAIT = Call(r"parking_lot::(condvar::)?Condvar::wait(_for|_until)?", on=TP + ".cvar", transitive=False)
+    f = ctx.fn(rule, PT, "thread-park/wait-only-without-token")
+    if f is not None:
+        ctx.guarded(PT, WAIT, no_token, "thread-park/wait-only-without-token", "a thread parks on the condvar only while the token is 0 (an unpark that came first is not slept through)", rule=rule,
+                    invalidate=WAIT, pred_label="edge `*guard == 0`")
+        # Ok is returned only behind a token observation; the only other exit of the loop carries Err(Timeout)
+        timed = call_true(r"parking_lot::(condvar::)?WaitTimeoutResult::timed_out")
+        notok = call_false(r"(std|core)::result::Result::is_ok")
+        ctx.guarded(PT, Ev("ret"), any_of(has_token, notok), "thread-park/return-only-with-token-or-timeout", "ThreadPark::park_timeout leaves its loop only with the token set or with the timeout result", rule=rule,
+                    pred_label="edge `*guard != 0` / `result.is_ok()` is false")
+    g = ctx.fn(rule, UP, "thread-park/notify-when-token-set")
+    if g is not None:
+        NT = Call(r"parking_lot::(condvar::)?Condvar::notify_(one|all)", on=TP + ".cvar", transitive=False)
+        ctx.must_follow(UP, None, NT, "thread-park/first-unpark-notifies", "the unpark that sets the token (it was 0) always notifies the condvar", rule="R-PAIR", edge=no_token, edge_label="edge `*guard == 0`")
+    flag_init = agg_field_origins(ctx, ctx.prog.fn(TP + "::new"), TP, "ThreadPark", "lock") if ctx.prog.fn(TP + "::new") is not None else []
+    if flag_init:
+        h = ctx.prog.fn(TP + "::new"); o = simplify(flag_init[0][1])
+        ok = o[0] == "call" and const_int(h, h.term(o[1])["args"][0]) == 0
+        ctx.ob("R-ENUM", TP + "::new", "thread-park/starts-without-token", ok, "a fresh ThreadPark has no token" if ok else "ThreadPark::new does not start with token 0", h.where())
+
+def blocker_wiring_rules(ctx, rule="R-ENUM"):
+    B = "may::sync::blocking"; SB = B + "::SyncBlocker"
+    flag_values(ctx, [("init", SB + "::current", SB + ".unparked", 0, "sync-blocker/starts-not-unparked", "a fresh SyncBlocker was not unparked"),
+                      ("init", SB + "::current", SB + ".release", 0, "sync-blocker/starts-without-release", "a fresh SyncBlocker carries no release request"),
+                      ("store", SB + "::set_release", SB + ".release", 1, "sync-blocker/set-release-sets", "set_release registers the request"),
+                      ("store", SB + "::unpark", SB + ".unparked", 1, "sync-blocker/unpark-marks", "unpark marks the blocker as served")], rule=rule)
+    forwarding_rules(ctx, [(SB + "::unpark", re.escape(B) + r"::Blocker::unpark", "sync-blocker/unpark-wakes", "SyncBlocker::unpark always wakes the underlying blocker"),
+                           (SB + "::park", re.escape(B) + r"::Blocker::park", "sync-blocker/park-blocks", "SyncBlocker::park blocks on the underlying blocker"),
+                           (B + "::Blocker::unpark", r"may::park::Park::unpark|" + re.escape(B) + r"::ThreadPark::unpark", "blocker/unpark-dispatches", "Blocker::unpark reaches its parker"),
+                           (B + "::Blocker::park", r"may::park::Park::park_timeout|" + re.escape(B) + r"::ThreadPark::park_timeout", "blocker/park-dispatches", "Blocker::park blocks on its parker"),
+                           (B + "::FastBlocker::unpark", r"may::park::Park::unpark_impl", "fast-blocker/unpark", "FastBlocker::unpark resumes its coroutine"),
+                           (B + "::FastBlocker::park", r"may::park::Park::park_timeout", "fast-blocker/park", "FastBlocker::park blocks on its Park")])
+    # which kind of cancellation point each blocker is: SyncBlocker handles the cancel itself (ignore = true), a plain Blocker is one (false)
+    def const_arg(fid, callee_rx, argi, exp, inst, why):
+        f = ctx.fn(rule, fid, inst)
+        if f is None: return
+        sites = sorted(ctx.an.sites(f, Call(callee_rx, transitive=False), "must"))
+        if not sites:
+            ctx.missing(rule, fid, inst, "no call of %s in %s" % (callee_rx, fid)); return
+        vals = [const_int(f, f.node(pt)["args"][argi]) for pt in sites]
+        ok = all(v == exp for v in vals)
+        ctx.ob(rule, fid, inst, ok, "%s (%s)" % (why, bool(exp)) if ok else "%s: %s passes %s, expected %s" % (why, fid, vals, bool(exp)), f.where(sites[0]))
+    const_arg(SB + "::current", re.escape(B) + r"::Blocker::new", 0, 1, "sync-blocker/ignores-cancel", "a SyncBlocker's park is not a cancellation point itself: the primitive's cancel arm forwards the hand-off first")
+    const_arg(B + "::Blocker::current", re.escape(B) + r"::Blocker::new", 0, 0, "blocker/is-cancellation-point", "a plain Blocker (join, channel receive, cqueue poll) is a cancellation point")
+    const_arg(B + "::FastBlocker::unpark", r"may::park::Park::unpark_impl", 1, 1, "fast-blocker/runs-synchronously", "FastBlocker resumes its coroutine in place")
+    f = ctx.fn(rule, B + "::Blocker::new", "blocker/passes-ignore-cancel")
+    if f is not None:
+        IC = Call(r"may::park::Park::ignore_cancel", transitive=False)
+        sites = sorted(ctx.an.sites(f, IC, "must"))
+        ok = bool(sites) and all(simplify(trace_operand(f, f.node(pt)["args"][1]))[0] == "arg" for pt in sites)
+        ctx.ob(rule, B + "::Blocker::new", "blocker/passes-ignore-cancel", ok, "Blocker::new configures the coroutine Park with the caller's ignore_cancel" if ok else
+               "Blocker::new does not pass its ignore_cancel argument to Park::ignore_cancel", f.where(sites[0]) if sites else f.where())
+        ctx.must_follow(B + "::Blocker::new", None, IC, "blocker/coroutine-park-configured", "in coroutine context the new Park is always configured", rule="R-PAIR",
+                        edge=call_true(r"may::coroutine_impl::is_coroutine"), edge_label="edge `is_coroutine()` is true")
+
+
+# ------------------------------------------------------------------------------------------------
+# channel bookkeeping: endpoint counts and the port-dropped flag (C06, C07)
+
+def rmw_const(ctx, fid, fld, method, val, inst, why, rule="R-ENUM"):
+    """fid performs exactly one `field.method(val)` and does so on every path"""
+    f = ctx.fn(rule, fid, inst)
+    if f is None: return
+    ev = Call(A(method), on=fld, transitive=False)
+    sites = sorted(ctx.an.sites(f, ev, "must"))
+    got = [const_int(f, f.node(pt)["args"][1]) for pt in sites]
+    ok = len(sites) == 1 and ctx.an.must(f, ev) and got[0] == val
+    ctx.ob(rule, fid, inst, ok, "%s: %s.%s(%s)" % (why, fld.rsplit(".", 1)[-1], method, val) if ok else
+           "%s: %s must perform exactly one `%s.%s(%s)` on every path (found %d site(s), value(s) %s)" % (why, fid, fld.rsplit(".", 1)[-1], method, val, len(sites), got), f.where(sites[0]) if sites else f.where())
+
+def channel_bookkeeping_rules(ctx):
+    S = "may::sync"
+    for m, cnt in (("mpsc", "channels"), ("spsc", "channels")):
+        IQ = "%s::%s::InnerQueue" % (S, m)
+        flag_values(ctx, [("init", IQ + "::new", IQ + "." + cnt, 1, "%s/starts-with-one-sender" % m, "a new channel has one sender"),
+                          ("init", IQ + "::new", IQ + ".port_dropped", 0, "%s/starts-with-receiver" % m, "a new channel has its receiver"),
+                          ("store", IQ + "::drop_port", IQ + ".port_dropped", 1, "%s/drop-port-marks" % m, "dropping the receiver is published to the senders")])
+        ctx.guarded(IQ + "::send", Agg(r"(std|core)::result::Result", "Err", transitive=False), call_true(A("load"), IQ + ".port_dropped"), "%s/send-fails-only-if-port-dropped" % m,
+                    "send fails only when the receiver is gone", rule="R-EXIT", pred_label="edge `port_dropped.load()` is true")
+        ctx.must_follow(IQ + "::send", None, Call(r"may_queue::(mpsc|spsc)::Queue::push", transitive=False), "%s/send-queues-if-port-alive" % m, "with the receiver alive every send queues its message", rule="R-PAIR",
+                        edge=call_false(A("load"), IQ + ".port_dropped"), edge_label="edge `port_dropped.load()` is false")
+    rmw_const(ctx, S + "::mpsc::InnerQueue::clone_chan", S + "::mpsc::InnerQueue.channels", "fetch_add", 1, "mpsc/clone-counts-sender", "every Sender clone is counted (the last drop, and only the last, disconnects)")
+    rmw_const(ctx, S + "::mpsc::InnerQueue::drop_chan", S + "::mpsc::InnerQueue.channels", "fetch_sub", 1, "mpsc/drop-uncounts-sender", "every Sender drop takes its count back")
+    flag_values(ctx, [("store", S + "::spsc::InnerQueue::drop_chan", S + "::spsc::InnerQueue.channels", 0, "spsc/drop-chan-clears-count", "dropping the only sender publishes `no sender`")])
+    MP = S + "::mpmc::InnerQueue"
+    flag_values(ctx, [("init", MP + "::new", MP + ".tx_ports", 1, "mpmc/starts-with-one-tx", "a new channel has one sender"),
+                      ("init", MP + "::new", MP + ".rx_ports", 1, "mpmc/starts-with-one-rx", "a new channel has one receiver")])
+    rmw_const(ctx, MP + "::clone_tx", MP + ".tx_ports", "fetch_add", 1, "mpmc/clone-tx-counts", "every Sender clone is counted")
+    rmw_const(ctx, MP + "::clone_rx", MP + ".rx_ports", "fetch_add", 1, "mpmc/clone-rx-counts", "every Receiver clone is counted")
+    rmw_const(ctx, MP + "::drop_tx", MP + ".tx_ports", "fetch_sub", 1, "mpmc/drop-tx-uncounts", "every Sender drop takes its count back")
+    rmw_const(ctx, MP + "::drop_rx", MP + ".rx_ports", "fetch_sub", 1, "mpmc/drop-rx-uncounts", "every Receiver drop takes its count back")
+    last = lambda a: a.kind == "val" and a.eq and a.vals == (1,) and is_call_result(A("fetch_sub"))(a.origin)
+    ctx.must_follow(MP + "::drop_tx", None, Call(r"may::sync::semphore::Semphore::post", transitive=False), "mpmc/last-tx-posts-disconnect", "the last sender always posts the disconnect permit", rule="R-PAIR",
+                    edge=last, edge_label="edge `tx_ports.fetch_sub(1) == 1`")
+    ctx.guarded(MP + "::drop_tx", Call(r"may::sync::semphore::Semphore::post", transitive=False), last, "mpmc/only-last-tx-posts-disconnect", "only the last sender posts the disconnect permit (an extra permit makes a receiver see Disconnected with senders alive)",
+                rule="R-EXIT", pred_label="edge `tx_ports.fetch_sub(1) == 1`")
+    ctx.guarded(MP + "::send", Agg(r"(std|core)::result::Result", "Err", transitive=False), lambda a: cmp_matches(a, "Eq", is_call_result(A("load")), is_const(0)), "mpmc/send-fails-only-without-rx",
+                "send fails only when no receiver is left", rule="R-EXIT", pred_label="edge `rx_ports.load() == 0`")
+    # every queued message is matched by one permit
+    ctx.must_follow(MP + "::send", Call(r"(crossbeam::)?crossbeam_queue::(seg_queue::)?SegQueue::push", transitive=False), Call(r"may::sync::semphore::Semphore::post", transitive=False),
+                    "mpmc/send-posts-permit", "every message pushed by send is followed by one permit", rule="R-PAIR")
+    # endpoints wire clone/drop to the counters
+    for m, pairs in (("mpsc", (("<may::sync::mpsc::Sender as std::clone::Clone>::clone", "clone_chan"), ("<may::sync::mpsc::Sender as std::ops::Drop>::drop", "drop_chan"), ("<may::sync::mpsc::Receiver as std::ops::Drop>::drop", "drop_port"))),
+                     ("spsc", (("<may::sync::spsc::Sender as std::ops::Drop>::drop", "drop_chan"), ("<may::sync::spsc::Receiver as std::ops::Drop>::drop", "drop_port"))),
+                     ("mpmc", (("<may::sync::mpmc::Sender as std::clone::Clone>::clone", "clone_tx"), ("<may::sync::mpmc::Sender as std::ops::Drop>::drop", "drop_tx"),
+                               ("<may::sync::mpmc::Receiver as std::clone::Clone>::clone", "clone_rx"), ("<may::sync::mpmc::Receiver as std::ops::Drop>::drop", "drop_rx")))):
+        forwarding_rules(ctx, [(fid, r"may::sync::%s::InnerQueue::%s" % (m, meth), "%s/endpoint-%s" % (m, meth.replace("_", "-")), "the endpoint's clone/drop is accounted in the shared queue") for fid, meth in pairs])
+
+
+def spsc_blocker_tag_rules(ctx, rule="R-ENUM"):
+    """spsc::Blocker is a tagged word: bit 0 clear = a raw coroutine, bit 0 set = a boxed Thread. Constructor, consumers and Drop agree."""
+    B = "may::sync::spsc::Blocker"
+    def tag_is(v):
+        def p(a):
+            if a.kind != "cmp" or a.op not in ("Eq", "Ne"): return False
+            x = simplify(a.a)
+            if not (x[0] == "bin" and x[1] == "BitAnd" and (is_const(1)(simplify(x[2])) or is_const(1)(simplify(x[3])))): return False
+            if is_const(0)(a.b): return (a.op == "Eq") == (v == 0)
+            if is_const(1)(a.b): return (a.op == "Eq") == (v == 1)
+            return False
+        return p
+    IC = Call(re.escape(B) + "::into_coroutine|generator::.*::from_raw", transitive=False)
+    IT = Call(re.escape(B) + "::into_thread|(std|alloc)::boxed::Box::from_raw", transitive=False)
+    for fid, short in ((B + "::unpark", "unpark"),):
+        f = ctx.fn(rule, fid, "spsc-blocker/%s-coroutine-only-if-untagged" % short)
+        if f is None: continue
+        ctx.guarded(fid, IC, tag_is(0), "spsc-blocker/%s-coroutine-only-if-untagged" % short, "the handle is turned back into a coroutine only when bit 0 is clear", rule=rule, pred_label="edge `(handle & 1) == 0`")
+        ctx.guarded(fid, IT, tag_is(1), "spsc-blocker/%s-thread-only-if-tagged" % short, "the handle is turned back into a Thread only when bit 0 is set", rule=rule, pred_label="edge `(handle & 1) != 0`")
+        ctx.must_follow(fid, None, Call(r"may::scheduler::Scheduler::schedule|may::coroutine_impl::run_coroutine", transitive=False), "spsc-blocker/coroutine-waiter-scheduled", "a coroutine waiter is always scheduled", rule="R-PAIR",
+                        edge=tag_is(0), edge_label="edge `(handle & 1) == 0`")
+        ctx.must_follow(fid, None, Call(r"std::thread::Thread::unpark", transitive=False), "spsc-blocker/thread-waiter-unparked", "a thread waiter is always unparked", rule="R-PAIR",
+                        edge=tag_is(1), edge_label="edge `(handle & 1) != 0`")
+    D = "<may::sync::spsc::Blocker as std::ops::Drop>::drop"
+    if ctx.prog.fn(D) is not None:
+        ctx.guarded(D, Call(r"(std|alloc)::boxed::Box::from_raw", transitive=False), tag_is(1), "spsc-blocker/drop-frees-thread-only-if-tagged", "Drop frees the boxed Thread only for a tagged handle (an untagged one is a coroutine)", rule=rule,
+                    pred_label="edge `(handle & 1) != 0`")
+    # constructors: the thread handle is tagged, the coroutine handle is not
+    f = ctx.fn(rule, B + "::new_thread", "spsc-blocker/thread-handle-tagged")
+    if f is not None:
+        ok = any((callee_name(f.node(pt)) or "").endswith("BitOrAssign>::bitor_assign") or (callee_name(f.node(pt)) or "").endswith("BitOr>::bitor") for pt in f.points() if f.is_term(pt) and f.node(pt)["t"] == "call") or \
+             any(not f.is_term(pt) and f.node(pt).get("s") == "=" and f.node(pt)["rv"]["r"] == "bin" and f.node(pt)["rv"]["op"] == "BitOr" for pt in f.points())
+        ctx.ob(rule, B + "::new_thread", "spsc-blocker/thread-handle-tagged", ok, "new_thread sets bit 0 of the handle" if ok else "new_thread no longer tags the handle: unpark treats the boxed Thread as a raw coroutine", f.where())
+    g = ctx.fn(rule, B + "::new_coroutine", "spsc-blocker/coroutine-handle-untagged")
+    if g is not None:
+        bad = any((callee_name(g.node(pt)) or "").endswith(("bitor_assign", "BitOr>::bitor")) for pt in g.points() if g.is_term(pt) and g.node(pt)["t"] == "call")
+        ctx.ob(rule, B + "::new_coroutine", "spsc-blocker/coroutine-handle-untagged", not bad, "new_coroutine leaves bit 0 clear" if not bad else "new_coroutine tags the handle", g.where())
+    forwarding_rules(ctx, [(B + "::into_coroutine", r"(std|core)::mem::forget", "spsc-blocker/into-coroutine-forgets-self", "the consumed Blocker is forgotten (its Drop must not run on a handle that was turned back into its owner)"),
+                           (B + "::into_thread", r"(std|core)::mem::forget", "spsc-blocker/into-thread-forgets-self", "the consumed Blocker is forgotten (no double free of the boxed Thread)")])
+    # the receiver's Park: kernel-side marker
+    SP = "may::sync::spsc::Park"
+    flag_values(ctx, [("store", SP + "::delay_drop", SP + ".wait_kernel", 1, "spsc-park/delay-drop-sets", "subscribe marks the Park as in use"),
+                      ("store", "<may::sync::spsc::DropGuard as std::ops::Drop>::drop", SP + ".wait_kernel", 0, "spsc-park/guard-drop-clears", "leaving subscribe releases the Park")])
+    PD = "<may::sync::spsc::Park as std::ops::Drop>::drop"
+    ctx.guarded(PD, Ev("ret"), call_false(A("load"), SP + ".wait_kernel"), "spsc-park/drop-waits-for-kernel", "the receiver's Park is freed only after subscribe has left it", rule="R-EXIT", pred_label="edge `wait_kernel.load()` is false")
+
+
+def condvar_frontend_rules(ctx, rule="R-EXIT"):
+    CV = "may::sync::condvar::Condvar"
+    TRG = Call(r"may::cancel::trigger_cancel_panic", transitive=False)
+    for fn in ("wait", "wait_timeout"):
+        fid = CV + "::" + fn
+        f = ctx.fn(rule, fid, "condvar/%s/cancel-panic-only-if-canceled" % fn)
+        if f is None: continue
+        def canceled(a, f=f):
+            # `matches!(ret, Err(ParkError::Canceled))` / `if let Err(ParkError::Canceled) = ret`: a discriminant test on the wait's result
+            if a.kind == "variant" and a.name == "Canceled" and root_of(simplify(a.origin))[0] == "call" and (root_of(simplify(a.origin))[2] or "").endswith("Condvar::wait_impl"): return True
+            if not (a.kind == "call" and a.truth is True and re.search(r"PartialEq>::eq$", a.name or "")): return False
+            t = f.term(a.site)
+            def names_canceled(o, d=0):
+                o = simplify(o)
+                if o[0] == "const": return any("ParkError::Canceled" in str(x) for x in (o[3] or ())) or "Canceled" in (o[1] or "")
+                if o[0] == "agg": return "Canceled" in str(o[2]) or any(names_canceled(x, d + 1) for x in (o[3] or ()))
+                if o[0] in ("ref", "deref", "cast", "field") and d < 6: return names_canceled(o[1], d + 1)
+                return False
+            return any(names_canceled(trace_operand(f, x)) for x in t["args"][:2])
+        if not ctx.edges(f, canceled) or not ctx.an.sites(f, TRG, "must"):
+            ctx.missing(rule, fid, "condvar/%s/cancel-panic-only-if-canceled" % fn, "`ret == Err(Canceled)` edges=%d trigger sites=%d" % (len(ctx.edges(f, canceled)), len(ctx.an.sites(f, TRG, "must")))); continue
+        ctx.guarded(fid, TRG, canceled, "condvar/%s/cancel-panic-only-if-canceled" % fn, "Condvar::%s raises the Cancel panic only when the wait reported Canceled" % fn, rule=rule, pred_label="edge `ret == Err(Canceled)`")
+        ctx.must_follow(fid, None, TRG, "condvar/%s/canceled-wait-panics" % fn, "a cancelled wait always ends in the Cancel panic", rule="R-PAIR", edge=canceled, edge_label="edge `ret == Err(Canceled)`")
+        ctx.must_follow(fid, None, Call(r"may::sync::mutex::unlock_mutex|may::sync::mutex::Mutex::unlock", transitive=False), "condvar/%s/canceled-wait-releases-mutex" % fn,
+                        "before the Cancel panic the re-acquired mutex is released (the guard is forgotten, so nobody else would)", rule="R-PAIR", edge=canceled, edge_label="edge `ret == Err(Canceled)`",
+                        exits=lambda g: set(g.ret_points()) | ctx.an.sites(g, TRG, "must"))
+        ctx.must_call(fid, Call(re.escape(CV) + "::wait_impl", transitive=False), "condvar/%s/waits" % fn, "Condvar::%s always goes through wait_impl" % fn, rule="R-PAIR")
+    # wait_while: waits while the condition holds and returns the guard only when it does not
+    WW = CV + "::wait_while"
+    f = ctx.prog.fn(WW)
+    if f is not None:
+        COND = r"(std|core)::ops::(FnMut|Fn|FnOnce)::call(_mut|_once)?"
+        ctx.guarded(WW, Call(re.escape(CV) + "::wait", transitive=False), call_true(COND), "condvar/wait-while/waits-only-while-condition", "wait_while blocks only while the condition holds", rule=rule,
+                    invalidate=Call(re.escape(CV) + "::wait", transitive=False), pred_label="edge `condition(guard)` is true")
+        ctx.guarded(WW, Agg(r"(std|core)::result::Result", "Ok", transitive=False), call_false(COND), "condvar/wait-while/returns-only-when-condition-false", "wait_while returns Ok(guard) only after the condition was seen false", rule=rule,
+                    pred_label="edge `condition(guard)` is false")
+
+
+# ------------------------------------------------------------------------------------------------
+# io timeouts: read and write directions agree between setter, getter, and the io source that arms the timer (C18)
+
+def io_timeout_direction_rules(ctx, rule="R-SIB"):
+    AD = r"may::sync::atomic_dur::AtomicDuration::"
+    def fld_dir(g, t):
+        leaf = receiver_leaf(g, t) or ""
+        m = re.search(r"\.(read|write)_timeout$", leaf)
+        return m.group(1) if m else None
+    def touches(kind, d):
+        return Call(AD + kind, where=lambda g, pt, t, d=d: fld_dir(g, t) == d, label="AtomicDuration::%s on a %s_timeout field" % (kind, d))
+    n = 0
+    for k, f in sorted(ctx.prog.fns.items()):
+        if not k.startswith("may::") or "::windows::" in k or "{closure" in k: continue
+        last = k.rsplit("::", 1)[-1]
+        m = re.fullmatch(r"(set_)?(read|write)_timeout", last)
+        if not m: continue
+        setter, d = bool(m.group(1)), m.group(2)
+        other = "write" if d == "read" else "read"
+        kind = "store" if setter else "get"
+        n += 1
+        ctx.fns_touched.add(k)
+        if setter:
+            # on every path that does not leave through a `?` / Err edge
+            st = ctx.an.sites(f, touches(kind, d), "must")
+            errb, _ = ctx.edge_blocker(f, lambda a: a.kind == "variant" and a.name in ("Break", "Err"))
+            r = ctx.an.reach(f, [Point(0, 0)], blocked=st, blocked_edges=errb)
+            ok1 = bool(st) and not any(x in r for x in f.ret_points())
+        else:
+            ok1 = bool(ctx.an.may(f, touches(kind, d)))
+        bad2 = ctx.an.may(f, touches("store", other)) or (not setter and ctx.an.may(f, touches("get", other)))
+        ctx.ob(rule, k, "io-timeout/%s-own-direction" % ("setter" if setter else "getter"), ok1 and not bad2,
+               "%s %s the %s timeout (and not the %s one)" % (last, "stores" if setter else "reads", d, other) if ok1 and not bad2 else
+               "%s %s: a %s timeout configured by the user is %s" % (k, ("does not store into a %s_timeout field on every successful path" % d) if not ok1 else ("touches the %s_timeout field" % other), d,
+                                                                       "lost or applied to the other direction - the next blocking %s waits for the wrong time" % d), f.where())
+        if setter:
+            # the stored value is the caller's argument
+            sites = sorted(ctx.an.sites(f, Call(AD + "store", transitive=False, where=lambda g, pt, t, d=d: fld_dir(g, t) == d), "must"))
+            for pt in sites:
+                o = simplify(trace_operand(f, f.node(pt)["args"][1]))
+                oka = o[0] == "arg"
+                ctx.ob(rule, k, "io-timeout/setter-stores-argument", oka, "%s stores exactly the duration it was given" % last if oka else "%s stores %s instead of its argument" % (k, fmt_origin(o)[:80]), f.where(pt))
+    if n < 8 and ctx.cfg != "bare":
+        ctx.missing(rule, "io timeout accessors", "io-timeout/accessors", "expected >= 8 set_/get read/write timeout accessors, found %d" % n)
+    # try_clone of the sockets that keep their timeouts in user space hands both timeouts on, each to its own direction
+    for k in ("may::net::tcp::TcpStream::try_clone", "may::net::udp::UdpSocket::try_clone"):
+        f = ctx.prog.fn(k)
+        if f is None or ctx.cfg == "bare": continue
+        ctx.fns_touched.add(k)
+        for d in ("read", "write"):
+            other = "write" if d == "read" else "read"
+            sites = sorted(ctx.an.sites(f, Call(r".*::set_%s_timeout" % d, transitive=False), "must"))
+            okv = bool(sites)
+            for pt in sites:
+                o = simplify(trace_operand(f, f.node(pt)["args"][1]))
+                okv &= o[0] == "call" and re.fullmatch(AD + "get", o[2] or "") is not None and fld_dir(f, f.term(o[1])) == d
+            errb, _ = ctx.edge_blocker(f, lambda a: a.kind == "variant" and a.name in ("Break", "Err"))
+            r = ctx.an.reach(f, [Point(0, 0)], blocked=set(sites), blocked_edges=errb)
+            okm = bool(sites) and not any(x in r for x in f.ret_points())
+            ctx.ob(rule, k, "io-timeout/clone-inherits-%s-timeout" % d, okv and okm, "the clone gets the original's %s timeout" % d if okv and okm else
+                   "%s does not (always) pass its own %s timeout to the clone's set_%s_timeout: blocking %ss on the clone use %s" % (k, d, d, d, "no / the %s timeout" % other), f.where(sites[0]) if sites else f.where())
+    # io sources: the timeout handed to (or fetched by) a source constructor has the source's direction
+    def src_dir(name):
+        if re.search(r"Read|Recv|Peek|Accept", name): return "read"
+        if re.search(r"Write|Send|Connect", name): return "write"
+        return None
+    wrong_rx = lambda d: r".*::%s_timeout" % ("write" if d == "read" else "read")
+    ns = 0
+    for im in ctx.prog.impls_of("may::coroutine_impl::EventSource"):
+        adt = norm(im.get("self_adt") or im["self_ty"])
+        if "::io::sys::" not in adt: continue
+        d = src_dir(adt.rsplit("::", 1)[-1])
+        if d is None: continue
+        other = "write" if d == "read" else "read"
+        newf = ctx.prog.fn(adt + "::new")
+        if newf is None: continue
+        bad = None
+        # inside the constructor
+        if ctx.an.sites(newf, Call(wrong_rx(d), transitive=False), "may") or ctx.an.sites(newf, touches("get", other), "may"):
+            bad = (newf, None, "%s::new fetches the %s timeout" % (adt.rsplit("::", 1)[-1], other))
+        # at every construction site: no argument comes from the other direction's timeout
+        for gid, lst in ctx.callers_of(re.escape(adt) + "::new").items():
+            for (g, pt, cid) in lst:
+                ns += 1
+                for a in g.node(pt)["args"]:
+                    o = trace_operand(g, a)
+                    if origin_reaches_call(g, o, wrong_rx(d)):
+                        bad = (g, pt, "%s builds a %s with the %s timeout" % (gid, adt.rsplit("::", 1)[-1], other))
+                    else:
+                        # AtomicDuration::get on the other direction's field
+                        oo = simplify(o)
+                        if oo[0] == "call" and re.fullmatch(AD + "get", oo[2] or "") and fld_dir(g, g.term(oo[1])) == other:
+                            bad = (g, pt, "%s builds a %s with the %s timeout" % (gid, adt.rsplit("::", 1)[-1], other))
+        ctx.ob(rule, adt, "io-timeout/source-gets-own-direction", bad is None, "%s is armed with the %s timeout at every construction site" % (adt.rsplit("::", 1)[-1], d) if bad is None else
+               "%s: a blocking %s is bounded by the %s timeout" % (bad[2], d, other), (bad[0].where(bad[1]) if bad and bad[1] else (bad[0].where() if bad else newf.where())))
+    if ns < 10 and ctx.cfg != "bare":
+        ctx.missing(rule, "io sources", "io-timeout/construction-sites", "expected >= 10 construction sites of io sources, found %d" % ns)
+
+
+def sync_wrapper_forwarding(ctx):
+    S = "may::sync"
+    forwarding_rules(ctx, [
+        (S + "::semphore::Semphore::wait", re.escape(S) + r"::semphore::Semphore::wait_timeout_impl", "fwd/semphore-wait", "Semphore::wait blocks through wait_timeout_impl"),
+        (S + "::semphore::Semphore::wait_timeout", re.escape(S) + r"::semphore::Semphore::wait_timeout_impl", "fwd/semphore-wait-timeout", "Semphore::wait_timeout blocks through wait_timeout_impl"),
+        (S + "::sync_flag::SyncFlag::wait", re.escape(S) + r"::sync_flag::SyncFlag::wait_timeout_impl", "fwd/syncflag-wait", "SyncFlag::wait blocks through wait_timeout_impl"),
+        (S + "::sync_flag::SyncFlag::wait_timeout", re.escape(S) + r"::sync_flag::SyncFlag::wait_timeout_impl", "fwd/syncflag-wait-timeout", "SyncFlag::wait_timeout blocks through wait_timeout_impl"),
+    ])
+
+def atomic_option_rules(ctx, rule="R-ENUM"):
+    AOP = "may::sync::atomic_option::AtomicOption"
+    f = ctx.fn(rule, AOP + "::store", "atomic-option/store-stores-some")
+    if f is not None:
+        sites = sorted(ctx.an.sites(f, Call(r"crossbeam(_utils)?::.*AtomicCell::(store|swap)", transitive=False), "must"))
+        ok = False
+        for pt in sites:
+            o = simplify(trace_operand(f, f.node(pt)["args"][1]))
+            ok = o[0] == "agg" and o[2] == "Some" and simplify(o[3][0])[0] == "arg"
+        ok = ok and ctx.an.must(f, Call(r"crossbeam(_utils)?::.*AtomicCell::(store|swap)", transitive=False))
+        ctx.ob(rule, AOP + "::store", "atomic-option/store-stores-some", ok, "AtomicOption::store always stores Some(its argument)" if ok else
+               "AtomicOption::store does not store Some(t): a published coroutine / waiter / result is dropped instead of handed over", f.where(sites[0]) if sites else f.where())
+    g = ctx.fn(rule, AOP + "::take", "atomic-option/take-takes")
+    if g is not None:
+        ok = ctx.an.must(g, Call(r"crossbeam(_utils)?::.*AtomicCell::(take|swap)", transitive=False))
+        ctx.ob(rule, AOP + "::take", "atomic-option/take-takes", ok, "AtomicOption::take moves the value out of the cell (a second take finds None)" if ok else
+               "AtomicOption::take no longer empties the cell: two takers obtain the same coroutine", g.where())
+
+
+def io_helper_forwarding(ctx):
+    IO = "may::io::sys"
+    SEL = IO + "::select::Selector"
+    items = [
+        (IO + "::add_socket", re.escape(SEL) + "::add_fd", "fwd/add-socket", "add_socket registers the fd with the selector"),
+        (IO + "::mod_socket", re.escape(SEL) + "::mod_fd", "fwd/mod-socket", "mod_socket re-registers the fd for its direction"),
+        (IO + "::del_socket", re.escape(SEL) + "::del_fd", "fwd/del-socket", "del_socket hands the io data to the selector for deregistration"),
+    ]
+    # (without the io_cancel feature - config `bare` - the io cancel data does not exist)
+    if ctx.prog.fn("<may::io::sys::cancel::CancelIoImpl as may::cancel::CancelIo>::set") is not None:
+        items += [("<may::io::sys::cancel::CancelIoImpl as may::cancel::CancelIo>::set", AO + "store", "fwd/cancel-io-set", "set() publishes the io data to the canceller"),
+                  ("<may::io::sys::cancel::CancelIoImpl as may::cancel::CancelIo>::clear", AO + "take", "fwd/cancel-io-clear", "clear() withdraws the io data (a later cancel must not fire into a finished io)")]
+    elif ctx.cfg != "bare":
+        ctx.missing("R-FWD", "may::io::sys::cancel::CancelIoImpl", "fwd/cancel-io-set", "CancelIoImpl::set not found")
+    if ctx.prog.fn(IO + "::remove_timer") is not None:
+        items.append((IO + "::remove_timer", r"may_queue::mpsc_list_v1::Entry::remove", "fwd/remove-timer", "remove_timer unlinks the timer entry"))
+    if ctx.prog.fn(SEL + "::del_io_timer") is not None:
+        items.append((SEL + "::del_io_timer", re.escape(SEL) + "::wakeup", "fwd/del-io-timer-wakes-owner", "handing a timer to its owning selector wakes that selector (it schedules the coroutine after removing the timer)"))
+        items.append((SEL + "::del_io_timer", MQ_MPSC + "push", "fwd/del-io-timer-queues", "the (timer, coroutine) pair is queued for the owning selector"))
+    forwarding_rules(ctx, items)
+    if ctx.prog.fn(SEL + "::del_io_timer") is not None:
+        ctx.order(SEL + "::del_io_timer", Call(MQ_MPSC + "push", transitive=False), Call(re.escape(SEL) + "::wakeup", transitive=False), "del-io-timer/queue-then-wake",
+                  "the pair is queued before the owner is woken (the woken selector must find it)")
+    # co_io_result: in coroutine context the passed-in result is the coroutine's, in thread context the thread's associated slot
+    f = ctx.prog.fn(IO + "::co_io_result")
+    if f is not None:
+        ctx.guarded(IO + "::co_io_result", Call(r"may::yield_now::get_co_para", transitive=False), lambda a: a.kind == "truth" and a.truth is True and simplify(a.origin)[0] in ("arg", "call"),
+                    "co-io-result/co-para-only-in-coroutine", "the coroutine's result slot is consumed only in coroutine context", rule="R-EXIT", pred_label="edge `is_coroutine` is true")
